@@ -175,6 +175,23 @@ def opWitness : ClassTable × OpParams :=
   ([⟨num, [], [⟨add, .method, .cls num .nil⟩]⟩, ⟨big, [num], [⟨add, .method, .cls big .nil⟩]⟩, ⟨['B', 'i', 'g', '2'], [big], []⟩],
    [((num, add), .cls num .nil), ((big, add), .cls num .nil)])
 
+/-- a `World` for the classes of `opWitness`: the constructors build instances without fields, `Num.__add__` answers a `Num`,
+    `Big.__add__` (which `Big2` inherits) a `Big` -/
+def opWorld : World where
+  new := fun c _ =>
+    if c = ['N', 'u', 'm'] ∨ c = ['B', 'i', 'g'] ∨ c = ['B', 'i', 'g', '2'] then .ok (.obj c [] []) else .error .typeErr
+  call := fun v m _ =>
+    match v with
+    | .obj c _ _ =>
+      if m = ['_', '_', 'a', 'd', 'd', '_', '_'] then
+        (if c = ['N', 'u', 'm'] then .ok (.obj ['N', 'u', 'm'] [] [])
+         else if c = ['B', 'i', 'g'] ∨ c = ['B', 'i', 'g', '2'] then .ok (.obj ['B', 'i', 'g'] [] [])
+         else .error .typeErr)
+      else .error .typeErr
+    | _ => .error .typeErr
+  classAttr := fun _ _ => .error .typeErr
+  nexts := fun _ => .error .typeErr
+
 /-! ## spread items -/
 
 /-- `on_spread` (reflections.py:722-723): `expression.attrs[0]` (a type without arguments: raw IndexError → Errors.Fatal) -/
@@ -182,5 +199,89 @@ def onSpread (t : Ty) : Except Err Ty :=
   match t.attrs with
   | .cons a _ => .ok a
   | .nil => .error .fatal
+
+/-! ## which handlers of ProceduralResolver the Lean model follows -/
+
+/-- handlers with an arm of `infer` (Model/Infer.lean; the comment of each arm names them) -/
+def handlersInInfer : List Str := [
+  ['o', 'n', '_', 'i', 'n', 't', 'e', 'g', 'e', 'r'],
+  ['o', 'n', '_', 'f', 'l', 'o', 'a', 't'],
+  ['o', 'n', '_', 's', 't', 'r', 'i', 'n', 'g'],
+  ['o', 'n', '_', 't', 'r', 'u', 't', 'h', 'y'],
+  ['o', 'n', '_', 'f', 'a', 'l', 's', 'y'],
+  ['o', 'n', '_', 'n', 'u', 'l', 'l'],
+  ['o', 'n', '_', 'e', 'm', 'p', 't', 'y'],
+  ['o', 'n', '_', 'v', 'a', 'r'],
+  ['o', 'n', '_', 'f', 'a', 'c', 't', 'o', 'r'],
+  ['o', 'n', '_', 'n', 'o', 't', '_', 'c', 'o', 'm', 'p', 'a', 'r', 'e'],
+  ['o', 'n', '_', 'o', 'r', '_', 'c', 'o', 'm', 'p', 'a', 'r', 'e'],
+  ['o', 'n', '_', 'a', 'n', 'd', '_', 'c', 'o', 'm', 'p', 'a', 'r', 'e'],
+  ['o', 'n', '_', 'c', 'o', 'm', 'p', 'a', 'r', 'i', 's', 'o', 'n'],
+  ['o', 'n', '_', 'o', 'r', '_', 'b', 'i', 't', 'w', 'i', 's', 'e'],
+  ['o', 'n', '_', 'x', 'o', 'r', '_', 'b', 'i', 't', 'w', 'i', 's', 'e'],
+  ['o', 'n', '_', 'a', 'n', 'd', '_', 'b', 'i', 't', 'w', 'i', 's', 'e'],
+  ['o', 'n', '_', 's', 'h', 'i', 'f', 't', '_', 'b', 'i', 't', 'w', 'i', 's', 'e'],
+  ['o', 'n', '_', 's', 'u', 'm'],
+  ['o', 'n', '_', 't', 'e', 'r', 'm'],
+  ['o', 'n', '_', 't', 'e', 'r', 'n', 'a', 'r', 'y', '_', 'o', 'p', 'e', 'r', 'a', 't', 'o', 'r'],
+  ['o', 'n', '_', 'p', 'a', 'i', 'r'],
+  ['o', 'n', '_', 'l', 'i', 's', 't'],
+  ['o', 'n', '_', 'd', 'i', 'c', 't'],
+  ['o', 'n', '_', 't', 'u', 'p', 'l', 'e'],
+  ['o', 'n', '_', 'g', 'r', 'o', 'u', 'p'],
+  ['o', 'n', '_', 'i', 'n', 'd', 'e', 'x', 'e', 'r'],
+  ['o', 'n', '_', 'r', 'e', 'l', 'a', 'y'],
+  ['o', 'n', '_', 'f', 'u', 'n', 'c', '_', 'c', 'a', 'l', 'l'],
+  ['o', 'n', '_', 'f', 'o', 'r', '_', 'i', 'n'],
+  ['o', 'n', '_', 'c', 'o', 'm', 'p', '_', 'f', 'o', 'r'],
+  ['o', 'n', '_', 'l', 'i', 's', 't', '_', 'c', 'o', 'm', 'p'],
+  ['o', 'n', '_', 'd', 'i', 'c', 't', '_', 'c', 'o', 'm', 'p']
+]
+
+/-- handlers modelled beside `infer`: `on_spread` (`onSpread`, this file), `on_lambda` (`lambdaType`, Model/InferLambda.lean) -/
+def handlersBeside : List Str := [
+  ['o', 'n', '_', 's', 'p', 'r', 'e', 'a', 'd'],
+  ['o', 'n', '_', 'l', 'a', 'm', 'b', 'd', 'a']
+]
+
+/-- handlers OUTSIDE the Lean model: declarations and statements (their effect on the environment is the `decl` / `for` / `bind` ops of
+    the driver, tied by the stream infer-programs), type annotations (read by the harness with CPython `ast`), arguments, imports,
+    class / this / super references, doc strings, the fallback — observed by the streams and the search only -/
+def handlersOutside : List Str := [
+  ['o', 'n', '_', 'f', 'a', 'l', 'l', 'b', 'a', 'c', 'k'],
+  ['o', 'n', '_', 'p', 'a', 'r', 'a', 'm', 'e', 't', 'e', 'r'],
+  ['o', 'n', '_', 'm', 'o', 'v', 'e', '_', 'a', 's', 's', 'i', 'g', 'n'],
+  ['o', 'n', '_', 'a', 'n', 'n', 'o', '_', 'a', 's', 's', 'i', 'g', 'n'],
+  ['o', 'n', '_', 'a', 'u', 'g', '_', 'a', 's', 's', 'i', 'g', 'n'],
+  ['o', 'n', '_', 'r', 'e', 't', 'u', 'r', 'n'],
+  ['o', 'n', '_', 'y', 'i', 'e', 'l', 'd'],
+  ['o', 'n', '_', 'a', 's', 's', 'e', 'r', 't'],
+  ['o', 'n', '_', 'a', 'r', 'g', 'u', 'm', 'e', 'n', 't'],
+  ['o', 'n', '_', 'i', 'n', 'h', 'e', 'r', 'i', 't', '_', 'a', 'r', 'g', 'u', 'm', 'e', 'n', 't'],
+  ['o', 'n', '_', 'a', 'r', 'g', 'u', 'm', 'e', 'n', 't', '_', 'l', 'a', 'b', 'e', 'l'],
+  ['o', 'n', '_', 'd', 'e', 'c', 'l', '_', 'c', 'l', 'a', 's', 's', '_', 'v', 'a', 'r'],
+  ['o', 'n', '_', 'd', 'e', 'c', 'l', '_', 't', 'h', 'i', 's', '_', 'v', 'a', 'r', '_', 'f', 'o', 'r', 'w', 'a', 'r', 'd'],
+  ['o', 'n', '_', 'd', 'e', 'c', 'l', '_', 't', 'h', 'i', 's', '_', 'v', 'a', 'r'],
+  ['o', 'n', '_', 'd', 'e', 'c', 'l', '_', 'l', 'o', 'c', 'a', 'l', '_', 'v', 'a', 'r'],
+  ['o', 'n', '_', 'd', 'e', 'c', 'l', '_', 'c', 'l', 'a', 's', 's', '_', 'p', 'a', 'r', 'a', 'm'],
+  ['o', 'n', '_', 'd', 'e', 'c', 'l', '_', 't', 'h', 'i', 's', '_', 'p', 'a', 'r', 'a', 'm'],
+  ['o', 'n', '_', 't', 'y', 'p', 'e', 's', '_', 'n', 'a', 'm', 'e'],
+  ['o', 'n', '_', 'i', 'm', 'p', 'o', 'r', 't', '_', 'n', 'a', 'm', 'e'],
+  ['o', 'n', '_', 'i', 'm', 'p', 'o', 'r', 't', '_', 'a', 's', '_', 'n', 'a', 'm', 'e'],
+  ['o', 'n', '_', 'c', 'l', 'a', 's', 's', '_', 'r', 'e', 'f'],
+  ['o', 'n', '_', 't', 'h', 'i', 's', '_', 'r', 'e', 'f'],
+  ['o', 'n', '_', 'r', 'e', 'l', 'a', 'y', '_', 'o', 'f', '_', 't', 'y', 'p', 'e'],
+  ['o', 'n', '_', 'v', 'a', 'r', '_', 'o', 'f', '_', 't', 'y', 'p', 'e'],
+  ['o', 'n', '_', 'l', 'i', 't', 'e', 'r', 'a', 'l', '_', 't', 'y', 'p', 'e'],
+  ['o', 'n', '_', 'l', 'i', 's', 't', '_', 't', 'y', 'p', 'e'],
+  ['o', 'n', '_', 'd', 'i', 'c', 't', '_', 't', 'y', 'p', 'e'],
+  ['o', 'n', '_', 'c', 'a', 'l', 'l', 'a', 'b', 'l', 'e', '_', 't', 'y', 'p', 'e'],
+  ['o', 'n', '_', 'c', 'u', 's', 't', 'o', 'm', '_', 't', 'y', 'p', 'e'],
+  ['o', 'n', '_', 'l', 'i', 't', 'e', 'r', 'a', 'l', '_', 'd', 'i', 'c', 't', '_', 't', 'y', 'p', 'e'],
+  ['o', 'n', '_', 'u', 'n', 'i', 'o', 'n', '_', 't', 'y', 'p', 'e'],
+  ['o', 'n', '_', 'n', 'u', 'l', 'l', '_', 't', 'y', 'p', 'e'],
+  ['o', 'n', '_', 's', 'u', 'p', 'e', 'r'],
+  ['o', 'n', '_', 'd', 'o', 'c', '_', 's', 't', 'r', 'i', 'n', 'g']
+]
 
 end Tranp.Infer
